@@ -1,4 +1,5 @@
 """C19 - to_function reproduces the set_value / set_initial / solve / sample pipeline."""
+import copy
 import numpy as np
 import casadi as ca
 from hypothesis import strategies as st
@@ -197,6 +198,26 @@ def check(case, ctx):
     ctx.count("zero_iteration_calls")
     if fails:
         return fails
+    # (iii) a second export of the same signature after an unlisted parameter got a new value: the new current value applies
+    unl = [a for a in ("pw", "pr") if a not in case["args"]]
+    if unl and case["args"]:
+        k = unl[0]
+        cur = case.get("late", {}).get(k, case["current"][k])
+        newv = (cur + 0.75) if k == "pw" else [c + 0.75 for c in cur]
+        ocp.set_value(S[k], ca.DM(newv).T if k == "pr" else newv)
+        f1, _ = make_function(ocp, S, case, "f0")
+        out1 = [DMa(o) for o in f1(*arg_values(case))][:3]
+        case2 = copy.deepcopy(case)
+        case2["late"] = dict(case.get("late", {}), **{k: newv})
+        want1 = imperative(case2, opts0, start_only=True)
+        for nm, a, b in zip(names, out1, want1):
+            if a.shape != b.shape and a.size == b.size:
+                a = a.reshape(b.shape)
+            if not close(a, b, 1e-9, 1e-10):
+                fails.append(Fail("re-export-uses-stale-values", dict(feats, output=nm, reassigned=k), {"to_function_second_export": a, "imperative_start": b}))
+        ctx.count("second_exports")
+        if fails:
+            return fails
     # (i) converged solve
     optsC = {"ipopt.tol": 1e-10, "ipopt.max_iter": 200}
     ocp, S = make(case, optsC)
